@@ -249,6 +249,29 @@ def work(item):
                     added.extend(what)
             if not consistent("%s %s" % (kind, what)):
                 break
+        # a file that defines one new name twice with another definition in between, not in name order: refused as a whole
+        with open(tmp, "w") as f:
+            f.write("".join("#S 14 %s\n#UCELL 5 5 5 90 90 90\n#N 5\n#L Z F X Y Z\n14 1.0 0 0 0\n" % n for n in ("Y_twice", "C_between", "Y_twice")) + "#EOF\n")
+        rv, err = L.call("Crystal_ReadFile", tmp.encode(), None)
+        os.unlink(tmp)
+        fact(st, rv == 0 and err is not None, "crystal-extended:file", dict(names=["Y_twice", "C_between", "Y_twice"], duplicate="within the file"), "rejected", dict(rv=rv, error=err))
+        consistent("file with a name defined twice")
+        # an entry without atoms (a header-only block): lookups still hand out independent copies that can be released in any order
+        with open(tmp, "w") as f:
+            f.write("#S 1 Hollow_entry\n#UCELL 5 5 5 90 90 90\n#N 5\n#L Z F X Y Z\n#EOF\n")
+        rv, err = L.call("Crystal_ReadFile", tmp.encode(), None)
+        os.unlink(tmp)
+        if rv == 1:
+            added.append(b"Hollow_entry")
+            p1, _ = L.call("Crystal_GetCrystal", b"Hollow_entry", None)
+            p2, _ = L.call("Crystal_GetCrystal", b"Hollow_entry", None)
+            if fact(st, bool(p1) and bool(p2), "crystal-extended:listed-but-not-found", dict(name="Hollow_entry"), "entry", None):
+                a1 = ctypes.cast(p1.contents.atom, c_void_p).value
+                a2 = ctypes.cast(p2.contents.atom, c_void_p).value
+                fact(st, a1 is None or a2 is None or a1 != a2, "copy:same-object", dict(fn="Crystal_GetCrystal", name="Hollow_entry (no atoms)"), "distinct atom storage (or none)", a1)
+                L.fn["Crystal_Free"](p1)
+                L.fn["Crystal_Free"](p2)
+            consistent("entry without atoms")
         L.fn["Crystal_Free"](si)
         st.sample("crystal-extended", dict(added=[a.decode() for a in added]), cap=1)
         return st
